@@ -24,7 +24,8 @@ ASSUMPTIONS = ["children excluded because reference definitions legitimately act
 def floors(tier):
     q = tier == "quick"
     return {"pairs.admissible": 30000 if q else 800000, "A_ends.list": 2000, "A_ends.blockquote": 2000, "A_ends.fence": 500, "A_ends.table": 200,
-            "B_starts.nonparagraph": 10000, "chains": 2000, "skipped.A_open": 100, "B.battery": 10000, "hook.parses": 5000}
+            "B_starts.nonparagraph": 10000, "chains": 2000, "skipped.A_open": 100, "B.battery": 10000, "hook.parses": 5000,
+            "pairs.systematic": 10000, "pairs.limits": 300}
 
 
 def blocks(toks, shift=0):
@@ -201,8 +202,45 @@ def clean(D):
     return gen.strip_surrogates(D)
 
 
+# documents that could leave document-wide traces (a flag, a budget, a cache) ...
+SETTERS = ["T\n===\n", "T\n---\n", "x\n-\n", "|a|b|\n|-|-|\n|c|\n", "[r]: /u\n", "<div>\nx\n</div>\n", "```\nc\n```\n", "~~~\nc\n~~~\n", "* * *\n", "> q\n",
+           "- a\n  - b\n    - c\n", "1. x\n", "    code\n", "# h\n", "a\\\nb\n", "<!-- c -->\n", "<?p?>\n", "<![CDATA[x]]>\n", "&amp;\n", "*e* `c` [l](u)\n", "![i](s)\n",
+           "a  \nb\n", "10. w\n", "+ p\n", "> - q\n> - r\n", "- [r]: /in\n", "> [q]: /in\n", "| a |\n|:-:|\n", "\\# x\n", "<a@b.c>\n", "> T\n> ===\n", "- T\n  ---\n",
+           "x\n***\n", "<script>\ns\n</script>\n", "<pre>\n\np\n</pre>\n", "> ```\n> c\n", "- ~~~\n  c\n", "1) a\n2) b\n", "-\n", ">\n", "a\n    b\n"]
+# ... and constructs whose recognition is delicate: in deep or wide list items, in quotes, short table rows, lazy lines
+SENSITIVE = ["10. T\n    ===\n", "- - T\n    ===\n", "- x\n  - T\n    ---\n", "> T\n> ===\n", "> - T\n>   ===\n", "100. T\n     ---\n", "1. - T\n     ===\n",
+             "-   T\n    ===\n", "- |a|b|\n  |-|-|\n  |c|\n", "> |a|\n> |-|\n> |c|d|\n", "|a|b|c|\n|-|-|-|\n|x|\n|y|z|\n", "10. |a|b|\n    |-|-|\n    |c|\n", "- ```\n  c\n  ```\n",
+             "1. ~~~\n   c\n   ~~~\n", "> <div>\n> x\n", "- <div>\n  x\n", "- * * *\n", "- a\n  ***\n", "-     c\n", "10.     c\n", "- x\n\n      c\n", "- # h\n", "1. # h\n   ## i\n",
+             "> a\nb\n", "- a\nb\n", "7. x\n8. y\n", "-   wide\n    cont\n", "> > q\n> r\ns\n", "- [r]: /u\n  't'\n", "10. [r]:\n    /u\n", "> 1. a\n>\n>    b\n", "- - - x\n      ===\n",
+             "1. a\n\n   T\n   ---\n", "- a\n\n  |x|y|\n  |-|-|\n  |z|\n", "> - a\n>   - b\n>     ===\n", "10. > T\n    > ===\n", "-\tT\n\t===\n".replace("\t", "   "), "+ a\n+\n+ c\n"]
+BATTERY_CONFS = [{"preset": "commonmark", "enable": ["table", "strikethrough"]}, {"preset": "js-default"}, {"preset": "commonmark"}, {"preset": "gfm-like", "options": {"linkify": False}}]
+
+
 def run(ctx):
     rng = ctx.rng
+    # every (trace-leaving document | delicate construct) followed by every delicate construct, on four configurations; chains of setters
+    pairs = [(a, b) for a in SETTERS + SENSITIVE for b in SENSITIVE]
+    for _ in range(ctx.scale(1500, 60000)):
+        pairs.append(("\n".join(rng.sample(SETTERS, rng.randint(2, 4))), rng.choice(SENSITIVE)))
+    for i, (a, b) in enumerate(pairs):
+        if not ctx.mine(i):
+            continue
+        for conf in BATTERY_CONFS:
+            ctx.count("pairs.systematic")
+            before = ctx.counters["pairs.admissible"]
+            check_case(ctx, {"conf": conf, "A": a, "B": b})
+            if ctx.counters["pairs.admissible"] > before:
+                ctx.nontrivial(C.conf_id(conf), a, b)
+    # boundary-value documents (vf.limits) as A: budgets and limits reached in A must not carry over into B
+    from vf import limits
+    for i, (name, src) in enumerate(limits.docs(big=True)):
+        if len(src) > (60000 if ctx.quick else 200000):
+            continue
+        for j, b in enumerate((SENSITIVE[10], SENSITIVE[0], SENSITIVE[8], SENSITIVE[12], SENSITIVE[23], "> " * 12 + "q\n", "[" * 12 + "t" + "](u)" * 12 + "\n")):
+            if not ctx.mine(i * 7 + j) or (j > 1 and len(src) > 8000 and ctx.quick):
+                continue
+            ctx.count("pairs.limits")
+            check_case(ctx, {"conf": BATTERY_CONFS[1] if len(src) > 20000 else rng.choice(BATTERY_CONFS[:2]), "A": src, "B": b}, minimize=False)
     corp = [t for _, t in gen.corpus() if len(t) < 400]
     vocab = gen.LINE_VOCAB_SMALL + gen.LINE_VOCAB_EXTRA
 
@@ -216,7 +254,7 @@ def run(ctx):
             return clean(rng.choice(corp))
         return clean("\n".join(rng.choice(vocab) for _ in range(rng.randint(1, 4))))
 
-    followers = ["- x\n", "  - x\n".lstrip(), "1. x\n", "> q\n", "zz\n", "===\n", "---\n", "# h\n", "```\nc\n```\n", "[r]: /u\n", "|a|b|\n|-|-|\n|c|d|\n",
+    followers = SENSITIVE + ["- x\n", "  - x\n".lstrip(), "1. x\n", "> q\n", "zz\n", "===\n", "---\n", "# h\n", "```\nc\n```\n", "[r]: /u\n", "|a|b|\n|-|-|\n|c|d|\n",
                  "<div>\nx\n</div>\n", "* * *\n", "+ y\n\n  z\n", "2) w\n", "a\nb\n", "-\n", ">\n", "\\\n", "<!-- c -->\n"]
     # sensitive-follower battery: a block DIRECTLY followed (no blank line) by lines whose reading depends on parser context
     bases = ["|a|b|\n|-|-|\n|c|d|\n", "|a|\n|-|\n", "para\n", "> q\n", "- i\n", "1. o\n", "```\nf\n```\n", "# h\n", "<div>\nx\n", "t\n===\n", "[r]: /u\n", "> - n\n", "- > m\n"]
